@@ -16,6 +16,7 @@ TRUSTED = [
     "Coq 8.16.1 kernel (coqc); no native_compute",
     "core/Types.v: the declarative sorting rules (specification) and ctor_shape (what the constructors' Python signatures and width computations guarantee before the check runs)",
     "hand model models/TypeChecker.v of SimpleTypeChecker.walk_*, tied to pysmt/type_checker.py by exhaustive correspondence over (operator, payload, argument-sort tuple) at the create_node level",
+    "translator harness/translate/dispatch_tr.py (Python ast -> Gallina, fail-closed) regenerates gen/Operators.v (node types, ids, names, groups) and gen/Dispatch.v (node type -> name of the handling method, per walker class) from the repository on every run; its output is cross-checked against the live tables (pysmt.operators, walker.functions[op].__name__) and the proofs Operators_proofs / Dispatch_tc_proofs tie the hand model's case analysis to it",
     "harness/refeval.py type_of: independent type derivation used as the property-level oracle on formulas returned by constructors, generators and transformations",
 ]
 ASSUME = [
